@@ -144,5 +144,68 @@ func VerifC10SortProvocations() (run map[string]func() string, expect map[string
 		}
 		expect[name] = strings.Join(wantRefs, " ") + " / " + strings.Join(wantErrs, ", ")
 	}
+	// unifyMapSources / sortedSplitList: 13 split arguments of one call, on
+	// different source lines (not in the order of the parameter names), whose
+	// literal arrays have different lengths: the split on the smallest line is
+	// the root, each other one is reported against it in line order
+	{
+		mk := func() ResolvedBindingMap {
+			ins := make(ResolvedBindingMap, len(keys))
+			for i, k := range keys {
+				arr := &ArrayExp{Value: make([]Exp, 2+i)}
+				for j := range arr.Value {
+					arr.Value[j] = &IntExp{Value: int64(j)}
+				}
+				sp := &SplitExp{Value: arr, Call: call, Source: arr}
+				sp.Node.Loc.Line = 100 + (i*5)%len(keys)
+				ins[k] = &ResolvedBinding{Exp: sp}
+			}
+			return ins
+		}
+		// line 100+l holds the array of length 2+i where (i*5)%n == l
+		byLine := make([]int, len(keys))
+		for i := range keys {
+			byLine[(i*5)%len(keys)] = 2 + i
+		}
+		var want []string
+		for l := 1; l < len(byLine); l++ {
+			want = append(want, fmt.Sprintf("%d vs %d", byLine[0], byLine[l]))
+		}
+		name := "unifyMapSources(13 split arguments of different lengths)"
+		run[name] = func() string {
+			first, err := unifyMapSources(call, mk(), nil)
+			var seq []string
+			for _, line := range strings.Split(verifErrText(err), "\n") {
+				if i := strings.Index(line, "array length mismatch "); i >= 0 {
+					seq = append(seq, strings.TrimSpace(line[i+len("array length mismatch "):]))
+				}
+			}
+			s := "<nil>"
+			if first != nil {
+				s = fmt.Sprint(first.Line())
+			}
+			return s + " / " + strings.Join(seq, ", ")
+		}
+		expect[name] = "<nil> / " + strings.Join(want, ", ")
+		// consistent lengths: the split which the node reports is the one on the smallest line
+		mk2 := func() ResolvedBindingMap {
+			ins := mk()
+			for _, b := range ins {
+				sp := b.Exp.(*SplitExp)
+				arr := &ArrayExp{Value: []Exp{&IntExp{Value: int64(sp.Line())}, &IntExp{Value: 2}}}
+				sp.Value, sp.Source = arr, arr
+			}
+			return ins
+		}
+		name2 := "unifyMapSources(13 consistent split arguments: the split reported for the node)"
+		run[name2] = func() string {
+			first, err := unifyMapSources(call, mk2(), nil)
+			if first == nil {
+				return "<nil> / " + verifErrText(err)
+			}
+			return fmt.Sprint(first.Line()) + " " + first.Value.GoString() + " / " + verifErrText(err)
+		}
+		expect[name2] = "100 [100,2] / <nil>"
+	}
 	return run, expect, nil
 }
